@@ -185,6 +185,13 @@ def _decompose_qpd_instructions(
     if not inplace:
         circuit = circuit.copy()  # pragma: no cover
 
+    # Every QPD gate needs a basis_id by now; check before modifying the circuit.
+    for inst in circuit.data:
+        if isinstance(inst.operation, BaseQPDGate) and inst.operation.basis_id is None:
+            raise ValueError(
+                "Cannot decompose a QPD gate whose basis_id is unset; provide map_ids."
+            )
+
     # Decompose any 2q QPDGates into single qubit QPDGates
     qpdgate_ids_2q = []
     for decomp in instruction_ids:
@@ -219,10 +226,6 @@ def _decompose_qpd_instructions(
         qubits = inst.qubits
         # All gates in decomposition should be local
         assert len(qubits) == 1
-        if inst.operation.basis_id is None:
-            raise ValueError(
-                "Cannot decompose a QPD gate whose basis_id is unset; provide map_ids."
-            )
         # Gather instructions with which we will replace the QPDGate
         tmp_data = []
         for data in inst.operation.definition.data:
